@@ -5,7 +5,7 @@ Implemented with `SLY <https://sly.readthedocs.io/en/latest/>`_.
 """
 
 import re
-from typing import Any, Callable, List, Optional, TypeVar, Union
+from typing import Any, Callable, List, Optional, Tuple, TypeVar, Union
 
 from sly import Lexer, Parser
 from sly.lex import Token
@@ -698,18 +698,20 @@ class ODataParser(Parser):
         Returns:
             A list of all identifiers in the ``attr``
         """
-        if isinstance(attr.owner, ast.Identifier):
-            exploded = [attr.owner.name]
-        elif isinstance(attr.owner, ast.Attribute):
-            exploded = self._explode_attr(attr.owner)
-        else:
-            raise NotImplementedError()
-
-        if isinstance(attr.attr, str):
-            exploded.append(attr.attr)
-        elif isinstance(attr.attr, ast.Attribute):
-            exploded.extend(self._explode_attr(attr.attr))
-        else:
-            raise NotImplementedError
+        # Explicit stack instead of recursion: a navigation path is as deep as the
+        # input is long, so one Python frame per segment would overflow the stack.
+        exploded: List[str] = []
+        todo: List[Tuple[str, Any]] = [("attr", attr.attr), ("owner", attr.owner)]
+        while todo:
+            position, item = todo.pop()
+            if position == "owner" and isinstance(item, ast.Identifier):
+                exploded.append(item.name)
+            elif position == "attr" and isinstance(item, str):
+                exploded.append(item)
+            elif isinstance(item, ast.Attribute):
+                todo.append(("attr", item.attr))
+                todo.append(("owner", item.owner))
+            else:
+                raise NotImplementedError()
 
         return exploded
